@@ -205,9 +205,13 @@ def refersToEnum (p : DcProp) : Bool :=
      | some (_ :: _) => true
      | _ => false)
 
-/-- `f"{ps.name}.{enum_member_name}"`. -/
-def enumDefaultExpr (u : UInfo) (p : DcProp) (d : DefaultVal) : Str :=
-  p.name.getD [] ++ '.' :: enumDefaultMember u d.pyStr
+/-- F53 repaired: the member is looked up BY VALUE - `f'{ps.name}("…")'` for a `str` default (the literal of the plain string
+    branch), `f"{ps.name}({ps.default})"` otherwise.  (`enumDefaultMember` above is the rule the code used before; the theorems about
+    it say why a name cannot be derived that way.) -/
+def enumDefaultExpr (_u : UInfo) (p : DcProp) (d : DefaultVal) : Str :=
+  match d with
+  | .str s => p.name.getD [] ++ '(' :: renderDefaultStr s ++ [')']
+  | d => p.name.getD [] ++ '(' :: d.pyStr ++ [')']
 
 /-- The scalar branch (`isinstance` chain); a complex default logs a warning and falls through to `"None"`. -/
 def scalarDefault : DefaultVal → Str
